@@ -228,3 +228,98 @@ Proof.
   destruct (negb (pconnected s)); [discriminate|]. destruct (pbroken s); discriminate.
 Qed.
 
+(** ---- Design refutation (C12): "respect the caller's deadline" ----
+
+    Request bounds every call with context.WithTimeout(ctx, c.timeout): the earlier
+    of the two deadlines wins.  The variant "apply the client timeout only if the
+    caller's context has no deadline" lets a caller deadline that is LATER than the
+    client timeout replace it: the documented bound of OptionTimeout is lost. *)
+Definition caller_deadline_only (timeout : nat) (caller : option nat) : nat :=
+  match caller with None => timeout | Some c => c end.
+
+Theorem caller_deadline_only_refuted :
+  forall timeout, exists caller, timeout < caller_deadline_only timeout caller.
+Proof. intros timeout. exists (Some (S timeout)). apply le_n. Qed.
+
+(** ---- Design refutation (C12): closing authCompleteChan after the first authentication ----
+
+    authCompleteChan is made once in NewConnection and used by every
+    setupEncryptedConnection (the first one and every reconnect):
+        setup:   send tcp.authentificate;  select { case err := <-c.authCompleteChan ... }
+        reader:  tcp.authentificationNonce -> handleAuthResponse: sign, send, status = Connected,
+                 c.authCompleteChan <- err
+    Model of one connection with an auth key: is a setup waiting, is the channel closed. *)
+Inductive aout := ARunning | APanic.
+Record astate := mkAS { awaiting : bool; aclosed : bool; aconnected : bool; aout_ : aout }.
+
+Inductive alabel :=
+| ASetup        (* (re)connect: handshake done, auth request sent, waiting on the channel *)
+| ANonce        (* the reader handles the server's nonce *)
+| ADrop.        (* the connection is lost: reconnect() sets Connecting *)
+
+Section Auth.
+  Variable closes : bool.   (* true: close(c.authCompleteChan) after the send *)
+
+  Definition astep (s : astate) (l : alabel) : option astate :=
+    match aout_ s with
+    | APanic => None                                   (* the process is gone *)
+    | ARunning =>
+        match l with
+        | ASetup =>
+            if aconnected s || awaiting s then None
+            else if aclosed s
+                 then Some (mkAS false true false ARunning)    (* receive on a closed channel: nil at once,
+                                                                  setup "succeeds", status still Connecting *)
+                 else Some (mkAS true false false ARunning)
+        | ANonce =>
+            if aconnected s then Some s                         (* "received unexpected auth packet" *)
+            else if aclosed s then Some (mkAS false true true APanic)   (* send on closed channel *)
+            else if awaiting s then Some (mkAS false closes true ARunning)
+            else None                                           (* the send blocks: no receiver (not this defect) *)
+        | ADrop => if aconnected s then Some (mkAS false (aclosed s) false ARunning) else None
+        end
+    end.
+
+  Fixpoint aexec (s : astate) (ls : list alabel) : option astate :=
+    match ls with
+    | [] => Some s
+    | l :: t => match astep s l with Some s' => aexec s' t | None => None end
+    end.
+End Auth.
+
+Definition ainit : astate := mkAS false false false ARunning.
+
+(** one authentication, a drop, the second authentication: panic *)
+Theorem auth_chan_closed_refuted :
+  exists s, aexec true ainit [ASetup; ANonce; ADrop; ASetup; ANonce] = Some s /\ aout_ s = APanic.
+Proof. eexists. split; reflexivity. Qed.
+
+(** the channel that is never closed serves any number of authentications *)
+Theorem auth_chan_open_never_panics :
+  forall ls s, aexec false ainit ls = Some s -> aout_ s = ARunning /\ aclosed s = false.
+Proof.
+  assert (H : forall ls s s', aout_ s = ARunning -> aclosed s = false -> aexec false s ls = Some s' ->
+                              aout_ s' = ARunning /\ aclosed s' = false).
+  { induction ls as [|l t IH]; cbn [aexec]; intros s s' Ho Hc.
+    - intros [= <-]. auto.
+    - destruct (astep false s l) as [s1|] eqn:E; [|discriminate].
+      assert (aout_ s1 = ARunning /\ aclosed s1 = false) as [Ho1 Hc1].
+      { unfold astep in E. rewrite Ho, Hc in E. destruct l.
+        - destruct (aconnected s || awaiting s); [discriminate|]. injection E as <-. auto.
+        - destruct (aconnected s); [injection E as <-; auto|].
+          destruct (awaiting s); [injection E as <-; auto|discriminate].
+        - destruct (aconnected s); [|discriminate]. injection E as <-. auto. }
+      exact (IH _ _ Ho1 Hc1). }
+  intros ls s. exact (H ls ainit s eq_refl eq_refl).
+Qed.
+
+(** ... and each of them completes: after every drop, setup + nonce re-establish it *)
+Theorem auth_chan_open_reconnects :
+  forall ls s, aexec false ainit ls = Some s -> aconnected s = false -> awaiting s = false ->
+    exists s', aexec false s [ASetup; ANonce] = Some s' /\ aconnected s' = true /\ aout_ s' = ARunning.
+Proof.
+  intros ls s Hx Hc Hw. destruct (auth_chan_open_never_panics ls s Hx) as [Ho Hcl].
+  cbn [aexec]. unfold astep at 1. rewrite Ho, Hc, Hw, Hcl. cbn [orb].
+  unfold astep at 1. cbn. eexists. split; [reflexivity|]. split; reflexivity.
+Qed.
+
